@@ -30,11 +30,13 @@ import (
 // Program is one small concurrent program: an initial state built
 // sequentially and the calls of each thread.
 type Program struct {
-	Name    string
-	Cfg     drv.Cfg
-	Init    []string   // letters applied sequentially before the threads start
-	Threads [][]string // calls per thread, e.g. "Publish:1", "Consume:0,40"
-	Block   bool       // open with OpenBlocking (C18)
+	Name       string
+	Cfg        drv.Cfg
+	Init       []string   // letters applied sequentially before the threads start
+	Threads    [][]string // calls per thread, e.g. "Publish:1", "Consume:0,40"
+	Block      bool       // open with OpenBlocking (C18)
+	Notify     int64      // >= 0 with NotifyOnly: the notifier alone, starting at this offset
+	NotifyOnly bool
 }
 
 func (p Program) String() string {
@@ -111,6 +113,9 @@ func pubMsgs(t, c, n int) []klevdb.Message {
 }
 
 // doCall performs one call on the log.
+// curNotify is the notifier of the running notifier-only execution.
+var curNotify *notify.Offset
+
 func doCall(l klevdb.Log, t, c int, call string, ctxs []context.Context, cancels []context.CancelFunc) (r Res) {
 	defer func() {
 		if p := recover(); p != nil {
@@ -177,6 +182,15 @@ func doCall(l klevdb.Log, t, c int, call string, ctxs []context.Context, cancels
 	case "Cancel":
 		cancels[a[0]]()
 		return Res{Err: "ok"}
+	case "Wait":
+		err := curNotify.Wait(ctxs[a[0]], a[1])
+		return Res{Err: errClass(err)}
+	case "Set":
+		curNotify.Set(a[0])
+		return Res{Err: "ok"}
+	case "NClose":
+		err := curNotify.Close()
+		return Res{Err: errClass(err)}
 	case "Close":
 		err := l.Close()
 		return Res{Err: errClass(err)}
@@ -187,18 +201,18 @@ func doCall(l klevdb.Log, t, c int, call string, ctxs []context.Context, cancels
 
 // Execution is everything one run of a program under one schedule showed.
 type Execution struct {
-	Choices  []int
-	Dec      []vsched.Decision
-	Hist     []vsched.HistEvent
-	Results  [][]Res
-	Deadlock string
-	Hung     bool
-	Diverged string
-	Final    []model.Msg
-	FinalN   int64
-	FinalErr string
-	CloseErr string
-	Init     *model.Log
+	Choices    []int
+	Dec        []vsched.Decision
+	Hist       []vsched.HistEvent
+	Results    [][]Res
+	Deadlock   string
+	Hung       bool
+	Diverged   string
+	Final      []model.Msg
+	FinalN     int64
+	FinalErr   string
+	CloseErr   string
+	Init       *model.Log
 	Parked     []bool // per thread: still parked when nothing else could run (C18)
 	ParkedDesc string
 	EverParked []bool
@@ -233,6 +247,9 @@ func CleanupWorker() {
 // threads run freely (cross-check of the scheduler; call/return order is then
 // taken from a global counter).
 func Exec(p Program, choices []int, free bool) (*Execution, error) {
+	if p.NotifyOnly {
+		return execNotify(p, choices)
+	}
 	w, err := drv.NewWorld(root(), p.Cfg)
 	if err != nil {
 		return nil, err
@@ -682,4 +699,82 @@ func (x *Execution) Trace(p Program) string {
 	}
 	fmt.Fprintf(&b, "  final log %v next %d %s\n", offsOf(x.Final), x.FinalN, x.FinalErr)
 	return b.String()
+}
+
+// execNotify runs a notifier-only program (no log, no files).
+func execNotify(p Program, choices []int) (*Execution, error) {
+	curNotify = notify.NewOffset(p.Notify)
+	x := &Execution{Choices: choices, Init: &model.Log{Next: p.Notify}, Results: make([][]Res, len(p.Threads)), FinalErr: "closed"}
+	nctx := 6
+	ctxs := make([]context.Context, nctx)
+	cancels := make([]context.CancelFunc, nctx)
+	for i := range ctxs {
+		ctxs[i], cancels[i] = context.WithCancel(context.Background())
+	}
+	defer func() {
+		for _, c := range cancels {
+			c()
+		}
+	}()
+	var wg sync.WaitGroup
+	vsched.Begin(len(p.Threads), choices)
+	for ti := range p.Threads {
+		x.Results[ti] = make([]Res, len(p.Threads[ti]))
+		wg.Add(1)
+		go func(ti int) {
+			defer wg.Done()
+			vsched.Enter(ti)
+			for ci, call := range p.Threads[ti] {
+				vsched.Call(ci, call)
+				r := doCall(nil, ti, ci, call, ctxs, cancels)
+				vsched.Ret(ci)
+				x.Results[ti][ci] = r
+			}
+			vsched.Exit(ti)
+		}(ti)
+	}
+	x.Hung = vsched.Run(20 * time.Second)
+	x.Dec = append([]vsched.Decision(nil), vsched.Decisions()...)
+	x.Hist = append([]vsched.HistEvent(nil), vsched.History()...)
+	x.Diverged = vsched.Diverged()
+	x.Ops = vsched.Ops()
+	if dl, what := vsched.Deadlocked(); dl {
+		x.Parked = make([]bool, len(p.Threads))
+		waitersOnly := true
+		for ti := range p.Threads {
+			if vsched.Finished(ti) {
+				continue
+			}
+			if vsched.ParkedInSelect(ti) {
+				x.Parked[ti] = true
+			} else {
+				waitersOnly = false
+			}
+		}
+		if !waitersOnly {
+			x.Deadlock = what
+			vsched.Abort()
+			return x, nil
+		}
+		for _, c := range cancels {
+			c()
+		}
+		x.Hung = vsched.Resume(20 * time.Second)
+		if dl2, what2 := vsched.Deadlocked(); dl2 {
+			x.Deadlock = "after cancelling all contexts: " + what2
+			vsched.Abort()
+			return x, nil
+		}
+		x.Dec = append([]vsched.Decision(nil), vsched.Decisions()...)
+		x.Hist = append([]vsched.HistEvent(nil), vsched.History()...)
+	}
+	x.EverParked = make([]bool, len(p.Threads))
+	for ti := range p.Threads {
+		x.EverParked[ti] = vsched.EverParked(ti)
+	}
+	if x.Hung {
+		return x, nil
+	}
+	wg.Wait()
+	return x, nil
 }
